@@ -1,0 +1,285 @@
+//! Verification-only cooperative scheduler (compiled only with `--cfg ast_grep_verif`).
+//!
+//! When `VERIF_THREADS=T` is set, the parallel file walk of `run_worker` is replaced by T
+//! controlled producer threads that take paths from a shared, path-sorted queue and run the REAL
+//! per-file closure; every `tx.send`, every `rx.recv` and every "take next path" becomes a
+//! schedule point at which exactly one participant is allowed to proceed. The choice at each
+//! point comes from `VERIF_SCHED` (comma separated indices into the canonical enabled list,
+//! default 0); the decision log is written to `VERIF_TRACE`. `VERIF_FAULTS` (comma separated
+//! path suffixes) makes `read_file` fail for the named files. Without `VERIF_THREADS` nothing
+//! changes.
+use std::cell::Cell;
+use std::collections::VecDeque;
+use std::io::Write;
+use std::path::Path;
+use std::sync::mpsc::Receiver;
+use std::sync::{Condvar, Mutex, OnceLock};
+
+use ignore::{DirEntry, Error, WalkParallel, WalkState};
+
+#[derive(Clone, Debug, PartialEq)]
+enum P {
+  Absent,
+  Running,
+  Waiting(&'static str, String),
+  Done,
+}
+struct St {
+  parts: Vec<P>,
+  granted: Option<usize>,
+  step: usize,
+  prefix: Vec<usize>,
+  in_flight: usize,
+  last: Option<usize>,
+  trace: Vec<String>,
+}
+struct Sched {
+  m: Mutex<St>,
+  cv: Condvar,
+}
+static SCHED: OnceLock<Option<Sched>> = OnceLock::new();
+thread_local! { static ME: Cell<Option<usize>> = const { Cell::new(None) }; }
+
+fn threads() -> usize {
+  std::env::var("VERIF_THREADS")
+    .ok()
+    .and_then(|s| s.parse().ok())
+    .unwrap_or(0)
+}
+
+fn sched() -> Option<&'static Sched> {
+  SCHED
+    .get_or_init(|| {
+      let t = threads();
+      if t == 0 {
+        return None;
+      }
+      let prefix = std::env::var("VERIF_SCHED")
+        .ok()
+        .map(|s| {
+          s.split(',')
+            .filter(|x| !x.is_empty())
+            .map(|x| x.parse().expect("VERIF_SCHED holds integers"))
+            .collect()
+        })
+        .unwrap_or_default();
+      Some(Sched {
+        m: Mutex::new(St {
+          // participant 0 is the consumer (printer), 1..=t the producers
+          parts: vec![P::Absent; t + 1],
+          granted: None,
+          step: 0,
+          prefix,
+          in_flight: 0,
+          last: None,
+          trace: vec![],
+        }),
+        cv: Condvar::new(),
+      })
+    })
+    .as_ref()
+}
+
+fn flush(st: &St) {
+  if let Ok(p) = std::env::var("VERIF_TRACE") {
+    let mut f = std::fs::File::create(p).expect("VERIF_TRACE is writable");
+    for l in &st.trace {
+      writeln!(f, "{l}").expect("write trace");
+    }
+  }
+}
+
+/// the arbiter: runs in whichever participant arrives last
+fn try_schedule(s: &Sched, st: &mut St) {
+  if st.granted.is_some()
+    || st
+      .parts
+      .iter()
+      .any(|p| matches!(p, P::Running | P::Absent))
+  {
+    return;
+  }
+  let producers_done = st.parts[1..].iter().all(|p| *p == P::Done);
+  let mut enabled: Vec<usize> = vec![];
+  for (i, p) in st.parts.iter().enumerate() {
+    if let P::Waiting(kind, _) = p {
+      // the consumer is BLOCKED (not spinning) while the channel is empty and a producer lives
+      let ok = match *kind {
+        "recv" => st.in_flight > 0 || producers_done,
+        _ => true,
+      };
+      if ok {
+        enabled.push(i);
+      }
+    }
+  }
+  if enabled.is_empty() {
+    if st.parts.iter().all(|p| *p == P::Done) {
+      return;
+    }
+    st.trace.push("DEADLOCK".into());
+    flush(st);
+    std::process::exit(98);
+  }
+  // canonical order: the previously running participant first if still enabled, then ascending id
+  if let Some(l) = st.last {
+    if let Some(pos) = enabled.iter().position(|&x| x == l) {
+      let x = enabled.remove(pos);
+      enabled.insert(0, x);
+    }
+  }
+  let choice = st.prefix.get(st.step).copied().unwrap_or(0);
+  if choice >= enabled.len() {
+    st.trace.push("BADPREFIX".into());
+    flush(st);
+    std::process::exit(97);
+  }
+  let who = enabled[choice];
+  let (kind, detail) = match &st.parts[who] {
+    P::Waiting(k, d) => (*k, d.clone()),
+    _ => ("", String::new()),
+  };
+  if kind == "send" {
+    // the send follows the grant immediately; no other participant runs in between
+    st.in_flight += 1;
+  }
+  if kind == "recv" && st.in_flight > 0 {
+    st.in_flight -= 1;
+  }
+  let running_still_enabled = st.last.map(|l| enabled[0] == l).unwrap_or(false);
+  st.trace.push(format!(
+    "{} enabled={:?} choice={} who={} kind={} running_first={} detail={}",
+    st.step, enabled, choice, who, kind, running_still_enabled, detail
+  ));
+  st.step += 1;
+  st.granted = Some(who);
+  st.last = Some(who);
+  flush(st);
+  s.cv.notify_all();
+}
+
+fn register(id: usize) {
+  ME.with(|m| m.set(Some(id)));
+}
+
+/// a schedule point of the calling participant: blocks until the arbiter grants it
+pub fn point(kind: &'static str, detail: String) {
+  let Some(s) = sched() else { return };
+  let Some(id) = ME.with(|m| m.get()) else {
+    return;
+  };
+  let mut st = s.m.lock().unwrap();
+  st.parts[id] = P::Waiting(kind, detail);
+  try_schedule(s, &mut st);
+  while st.granted != Some(id) {
+    st = s.cv.wait(st).unwrap();
+  }
+  st.granted = None;
+  st.parts[id] = P::Running;
+}
+
+fn done() {
+  let Some(s) = sched() else { return };
+  let Some(id) = ME.with(|m| m.get()) else {
+    return;
+  };
+  let mut st = s.m.lock().unwrap();
+  if st.parts[id] == P::Done {
+    return;
+  }
+  st.parts[id] = P::Done;
+  st.trace.push(format!("done who={id}"));
+  flush(&st);
+  try_schedule(s, &mut st);
+}
+
+pub fn active() -> bool {
+  sched().is_some()
+}
+
+/// consumer side of `Items::next`
+pub fn recv<T>(rx: &Receiver<T>) -> Option<T> {
+  if ME.with(|m| m.get()).is_none() {
+    register(0);
+  }
+  point("recv", String::new());
+  let ret = rx.recv().ok();
+  if ret.is_none() {
+    done();
+  }
+  ret
+}
+
+/// the consumer dropped the receiver (finished or gave up early)
+pub fn consumer_gone() {
+  if active() && ME.with(|m| m.get()) == Some(0) {
+    done();
+  }
+}
+
+/// fault point of `read_file`
+pub fn fault(path: &Path) -> bool {
+  let Ok(f) = std::env::var("VERIF_FAULTS") else {
+    return false;
+  };
+  let p = path.to_string_lossy();
+  f.split(',').any(|x| !x.is_empty() && p.ends_with(x))
+}
+
+type Visitor<'s> = Box<dyn FnMut(Result<DirEntry, Error>) -> WalkState + Send + 's>;
+
+/// stands in for `WalkParallel` in `run_worker`
+pub struct Walk(WalkParallel);
+impl Walk {
+  pub fn new(w: WalkParallel) -> Self {
+    Walk(w)
+  }
+  pub fn run<'s, F>(self, mut mkf: F)
+  where
+    F: FnMut() -> Visitor<'s>,
+  {
+    let t = threads();
+    if t == 0 {
+      return self.0.run(mkf);
+    }
+    // the entries are collected with the real walker (order-insensitive, then sorted) ...
+    let collected = std::sync::Arc::new(Mutex::new(Vec::new()));
+    {
+      let c = collected.clone();
+      self.0.run(|| {
+        let c = c.clone();
+        Box::new(move |r| {
+          c.lock().unwrap().push(r);
+          WalkState::Continue
+        })
+      });
+    }
+    let mut entries = std::mem::take(&mut *collected.lock().unwrap());
+    entries.sort_by_key(|r| {
+      r.as_ref()
+        .map(|e| e.path().to_path_buf())
+        .unwrap_or_default()
+    });
+    let queue = Mutex::new(entries.into_iter().collect::<VecDeque<_>>());
+    // ... and fed to T controlled threads, each with a visitor built by the REAL closure factory
+    let visitors: Vec<_> = (0..t).map(|_| mkf()).collect();
+    std::thread::scope(|sc| {
+      for (i, mut v) in visitors.into_iter().enumerate() {
+        let queue = &queue;
+        sc.spawn(move || {
+          register(i + 1);
+          loop {
+            point("take", String::new());
+            let Some(e) = queue.lock().unwrap().pop_front() else {
+              break;
+            };
+            if matches!(v(e), WalkState::Quit) {
+              break;
+            }
+          }
+          done();
+        });
+      }
+    });
+  }
+}
